@@ -22,10 +22,13 @@ CHECKS = {
           "Every configuration within 1 (quick) / 2 (thorough) deviations of the base over 22 arithmetic options (all 7 graft types, "
           "beta1/beta2 incl. 1.0, nesterov, moving-average momentum, weight decay x decoupling, lr decoupling/schedule, block size incl. 1, "
           "merging, preconditioner type, exponent override, start step, both intervals, skip thresholds, eigh, relative/absolute epsilon) "
-          "plus 15 interacting pairs, on two parameter trees (ranks 0-3; a rank-4 tree in thorough), replicated and sharded, is driven "
+          "plus 17 interacting pairs, on two parameter trees (ranks 0-3; a rank-4 tree in thorough), replicated and sharded - and, for every "
+          "structural option (block size, merging, preconditioner type, skip rules, exponent, eigh, refresh interval), under jax.pmap "
+          "over 2 (4) forced host devices on the tree with the most statistics - is driven "
           "through all histories over {gA,gB} of length <= 4 (5 with g0 in thorough). After every transition the stored statistics are "
           "compared with w1*L+w2*G_(i)G_(i)^T (2e-6) and every update leaf with the documented formula evaluated in float64 on the "
-          "stored statistics (2e-4).",
+          "stored statistics (2e-4). Process-history dimension: before and after every task the neighbouring configurations are "
+          "constructed and initialised in the same process, so state kept at module level shows up.",
           "The ridge actually used is taken from the reported diagnostics and the accept/keep decision from the reported error (C01 and "
           "C03 judge those); graft NONE with coupled learning rate is excluded as undefined by the documentation; block sizes > 4 and "
           "other trees are not covered.", "DESIGN.md §4 C02"),
@@ -65,8 +68,10 @@ CHECKS = {
           "optax.adafactor is the trusted base for ADAFACTOR.", "DESIGN.md §4 C05"),
   "C08": ("explicit-state enumeration of block layouts x per-block scale vectors x companions x all gradient histories through the "
           "real optimizers, three-run differential oracle (blocked tensor / blocks as separate leaves / with a companion)",
-          "distributed_shampoo layouts 4x3 and 5x3 with block 2 (ragged blocks; thorough adds 4x4 and 3x5) and tearfree layouts 4x2, 6x2 "
-          "(4x4) with block 2, every per-block gradient scale vector over {2^-20, 1, 2^20} (at most 3 non-unit scales when there are "
+          "distributed_shampoo layouts 4x3 and 5x3 with block 2 (ragged blocks; thorough adds 4x4 and 3x5), 3x3 and 6x3 with block 4 "
+          "(statistics of different sizes next to the larger companion, so that padding to a common size happens), and tearfree layouts "
+          "4x2, 6x2 (4x4) with block 2, the distributed_shampoo differential also under jax.pmap over 2 (4) forced host devices (more "
+          "statistics than devices) against the separate-leaf single-device run, every per-block gradient scale vector over {2^-20, 1, 2^20} (at most 3 non-unit scales when there are "
           "more than 4 blocks), graft NONE and SGD, companions {small, larger than every block, 2^20-scaled}, every history over "
           "{gA,gB} of length <= 2 (3): each block of the blocked tensor must be updated exactly like the same block as a separate "
           "tensor (1e-3 of the block's max-norm), with SGD grafting the update must be the separately preconditioned blocks rescaled by "
@@ -113,15 +118,19 @@ CHECKS = {
   "C10": ("explicit-state enumeration (depth 1) of all admissible (d, r), paddings, gapped spectra and gradient shapes through the "
           "real pack/unpack, _low_rank_root and compressed preconditioned_grad against dense float64 reconstructions",
           "All (d, r) with |r|+2 < d <= 8 (10 thorough), both signs, paddings {0,3}: pack/unpack round trips on distinguishable values "
-          "(exact); _low_rank_root for 3 gapped spectra x 3 bases x p in {2,4,6,8} x 2 ridge settings against the exact root with the "
-          "complement averaged over the unpadded dimensions (1e-8); preconditioned_grad with mixed full/packed preconditioners for every "
+          "(exact); _low_rank_root for 3 gapped spectra x scales {1, 2^-6, 16} x 3 bases x p in {2,4,6,8} x 3 ridge settings (absolute 1e-3, "
+          "relative 1e-12, relative 1e-2) against the exact root with the complement averaged over the unpadded dimensions (1e-8); for "
+          "the relative ridge 1e-2 the one scalar the routine does not report (the ridge actually added, epsilon times a power-iteration "
+          "estimate) is recovered from the returned constant by bisection and must lie in [0.5,1] x epsilon x lambda_max; preconditioned_grad with mixed full/packed preconditioners for every "
           "gradient shape over dims {3,5,6} of rank 1..3 and every has_zeros pattern against dense tensordot (1e-12).",
           "Spectra without a gap at the cut are excluded (the denoted matrix is not unique there); d > 10.", "DESIGN.md §4 C10"),
   "C11": ("exhaustive lattice enumeration (depth 1) of the real QuantizedValue quantize/dequantize/requantize over all float32 "
           "exponents x bucket boundaries",
           "Column max-abs over all 254 finite float32 exponents x 8 mantissas (+ subnormals, FLT_MAX); column entries every bucket "
           "boundary (k+1/2)b and its two float32 neighbours, every k*b, +-max and 0 (int8: all 254 boundaries; int16: all 65534 in "
-          "thorough, every 64th in quick); layouts rank 1..3, eager and jitted; square matrices with extract_diagonal; constant and "
+          "thorough, every 64th in quick); layouts rank 1..3, eager and jitted; every shape over dims {1,2,3} of rank 1..3 (unit axes in every position) with the layout "
+          "of integers, bucket sizes (one per column = x.shape[1:]) and dequantized tensor checked; square matrices with extract_diagonal "
+          "(also for the pass-through dtypes); constant and "
           "zero columns; float32/bfloat16 pass-through. Oracle per element in float64: half-bucket bound, no most-negative integer, "
           "exact zeros and diagonal, identical integers after re-quantisation.",
           "XLA CPU backend (flush-to-zero) is the platform observed; tensors of rank > 3 not covered. Two known findings (bucket "
@@ -147,23 +156,24 @@ CHECKS = {
           "DESIGN.md §4 C13"),
   "C14": ("explicit-state BFS over all gradient histories with a crash/restore transition at every reached state (serialize, fresh "
           "optimizer object and trace, restore, continue), bitwise differential oracle",
-          "For 11 optimizers (distributed_shampoo full / eigh+schedule / pmap+quantized / compressed / frequent-directions / sharded / "
-          "LOBPCG, sm3, tearfree Shampoo / Sketchy / Adafactor-grafted) every state reached by a history over {gA,gB} of length <= 3 (5 "
+          "For 12 optimizers (distributed_shampoo full / eigh+schedule / pmap+quantized / compressed / frequent-directions / sharded / "
+          "sharded restored into the target declared by shape_and_dtype_fn / LOBPCG, sm3, tearfree Shampoo / Sketchy / Adafactor-grafted) every state reached by a history over {gA,gB} of length <= 3 (5 "
           "thorough) is serialized with flax msgpack, restored into the init template of a freshly constructed optimizer, and for every "
           "gradient of the alphabet the update and next state from the restored state must be bit-identical to those from the original; "
-          "by induction over the BFS tree every continuation from every crash point equals the uninterrupted run. Thorough also performs "
-          "the restore-and-continue in a fresh process for crash points 0, 1 and T.",
+          "by induction over the BFS tree every continuation from every crash point equals the uninterrupted run. The restore-and-continue is also performed "
+          "in a fresh interpreter process with a different PYTHONHASHSEED (quick: three optimizers; thorough: all, crash points 0, 1, T).",
           "Same XLA build and host; histories beyond the depth bound.", "DESIGN.md §4 C14"),
   "C15": ("explicit-state BFS over all gradient histories up to depth T through the real tearfree update for every configuration "
           "within deviation k of a base TearfreeOptions, lock-step with an independent float64 reference model; differential lr "
           "linearity",
-          "Every configuration within 1 (quick) / 2 (thorough) deviations over 15 Shampoo options (+8 interacting pairs) and 10 Sketchy "
+          "Every configuration within 1 (quick) / 2 (thorough) deviations over 15 Shampoo options (+13 interacting pairs, frequency pairs to depth 5) and 10 Sketchy "
           "options (block size, merge limit, both frequencies, decay, graft type/decay/start/skip rules, ema, nesterov, momentum decay, "
           "weight decay before/after, constant/scheduled lr, sketch rank, epsilon mode, update frequency) on two trees (blocked and "
-          "padded leaves, unit dims, scalar) is driven through all histories over {gA,gB,g0,gD} (gD: half of the rows scaled 2^-14, so "
+          "padded leaves, unit dims, scalar, a (1,5) leaf) is driven through all histories over {gA,gB,g0,gD} (gD: half of the rows scaled 2^-14, so "
           "that blocks differ in scale) of length <= 3 (4). Every update leaf is compared with -lr(t)*momentum(wd(graft(second_order("
           "merge+pad(g))))) evaluated in float64 (1e-9 for Shampoo under x64; 2e-4 for float32 Sketchy plus a computed allowance for "
-          "the tail>0 switch when the exact escaped mass is zero), and lr=c against lr=1 (exact for dyadic c).",
+          "the tail>0 switch when the exact escaped mass is zero; leaves on which that switch has a real complement are undecidable, counted "
+          "and skipped for the rest of the path), and lr=c against lr=1 (exact for dyadic c).",
           "optax.adafactor is the trusted base for ADAFACTOR grafting; cases whose eigenvalue ratio lies within a factor 4 of the "
           "documented 1e-6 cut-off are counted inconclusive (none in the alphabet); float32 Sketchy is not given the 2^-28-spread event.",
           "DESIGN.md §4 C15"),
@@ -172,14 +182,18 @@ CHECKS = {
           "For every (algorithm in OGD/ADA/S_ADA/ADA_FD/FD_SON/RFD_SON, dimension 2..4 (5), sketch size {2,3}, delta {0,0.5}, lr "
           "{1,0.25}) all sequences over {a, b, a+b, d, 0} of length <= 4 (5; 5/6 for the closed forms) are executed under x64: closed-form "
           "iterates (1e-10), last sketch row zero, FD bracket against the exact covariance, S-AdaGrad alpha = delta + escaped mass, "
-          "and equality with exact full-matrix AdaGrad whenever the history rank is below the sketch size and delta > 0.",
+          "equality with exact full-matrix AdaGrad whenever the history rank is below the sketch size and delta > 0, for S-AdaGrad the "
+          "step actually applied against the post-update (P, e, alpha) (skipped and counted where alpha is below 1e-10 of the spectrum), "
+          "tiny-gradient tasks (scale 2^-24, delta 2^-44), the training loop _compiled_run_dataset over every chunking of every row "
+          "sequence, and neighbouring hyper-parameters bound in the same process before the task (module-level caches).",
           "Finite iterates are not part of the property (Ada-FD with delta=0 divides by its zero diagonal term; counted, not judged).",
           "DESIGN.md §4 C16"),
   "C17": ("explicit-state enumeration of the real create_redist_dict over all "
           "bounded (dims, scores, layout, base rank, rule) instances (depth 1)",
           "Every synthetic optimizer state with up to 3 (quick) / 4 (thorough) sketched axes, dims from {2,3,4,6}, "
-          "scores from an 8-value scale-disparate pool, both layer layouts, base rank 1..dim+1 and three scoring rules is "
-          "passed to the real function; the budget and range invariant is evaluated on every result. The 'model' is the "
+          "scores from an 8-value scale-disparate pool, both layer layouts, both layer namings (the routine walks a set of names), "
+          "base rank 1..dim+1, five scoring rules and the running-average mode, plus a float32-adversarial sub-lattice (one dominant "
+          "score, several around its float32 ulp, 4-5 axes), is passed to the real function; the budget and range invariant is evaluated on every result. The 'model' is the "
           "input lattice; the exploration has depth 1, which is the right level for a pure function of its input.",
           "Scores reach the routine through the real score_fn from synthetic sketch records; values outside the pools and "
           "more than 4 axes are not covered.", "DESIGN.md §4 C17"),
